@@ -33,6 +33,7 @@ from .asttypes import (
     With,
     match_case,
     TryStar,
+    TypeAlias,
 )
 
 from .common import NodeError, astfield
@@ -80,12 +81,22 @@ _SLICE_COMAPTIBILITY = {
     (List, 'elts'):                       'expr*',
     (Tuple, 'elts'):                      'expr*',
 
+    (FunctionDef, 'decorator_list'):      'decorator*',
+    (AsyncFunctionDef, 'decorator_list'): 'decorator*',
+    (ClassDef, 'decorator_list'):         'decorator*',
+    (ClassDef, 'bases'):                  'base*',
+    (ClassDef, 'keywords'):               'keyword*',
+
+    (With, 'items'):                      'withitem*',
+    (AsyncWith, 'items'):                 'withitem*',
+
+    (FunctionDef, 'type_params'):         'type_param*',
+    (AsyncFunctionDef, 'type_params'):    'type_param*',
+    (ClassDef, 'type_params'):            'type_param*',
+    (TypeAlias, 'type_params'):           'type_param*',
+
     # TODO: add use of these for better preservation when moving formatted code
 
-    # (FunctionDef, 'decorator_list'):      'expr*',
-    # (AsyncFunctionDef, 'decorator_list'): 'expr*',
-    # (ClassDef, 'decorator_list'):         'expr*',
-    # (ClassDef, 'bases'):                  'expr*',
     # (Delete, 'targets'):                  'expr*',
     # (Assign, 'targets'):                  'expr*',
     # (BoolOp, 'values'):                   'expr*',
@@ -98,24 +109,15 @@ _SLICE_COMAPTIBILITY = {
     # (DictComp, 'generators'):             'comprehension*',
     # (GeneratorExp, 'generators'):         'comprehension*',
 
-    # (ClassDef, 'keywords'):               'keyword*',
     # (Call, 'keywords'):                   'keyword*',
 
     # (Import, 'names'):                    'alias*',
     # (ImportFrom, 'names'):                'alias*',
 
-    # (With, 'items'):                      'withitem*',
-    # (AsyncWith, 'items'):                 'withitem*',
-
     # (MatchSequence, 'patterns'):          'pattern*',
     # (MatchMapping, ''):                   'expr:pattern*',
     # (MatchOr, 'patterns'):                'patternor*',
     # (MatchClass, 'patterns'):             'pattern*',
-
-    # (FunctionDef, 'type_params'):         'type_param*',
-    # (AsyncFunctionDef, 'type_params'):    'type_param*',
-    # (ClassDef, 'type_params'):            'type_param*',
-    # (TypeAlias, 'type_params'):           'type_param*',
 
     # (Global, 'names'):                    'identifier*',
     # (Nonlocal, 'names'):                  'identifier*',
@@ -303,7 +305,6 @@ class Reconcile:
 
         nodef = getattr(node, 'f', False)  # this determines if it came from an in-tree FST or a pure AST
         outa = outf.a
-        outa_body = getattr(outa, field)
         work_root = self.work
         len_body = len(body)
         start = 0
@@ -363,7 +364,7 @@ class Reconcile:
 
                     outf.put_slice(slice, start, end, field, trivia=self.trivia_fst_put, **self.options)
 
-            len_outa_body = len(outa_body)  # get each time because could have been modified by put_slice, will not change if coming from AST
+            len_outa_body = len(getattr(outa, field))  # get each time because could have been modified by put_slice (or the list replaced with a new one), will not change if coming from AST
 
             for i in range(start, end):
                 n = body[i]  # this is safe to use in 'put_slice()' then 'recurse()' without duplicating because ASTs are not consumed
@@ -375,7 +376,7 @@ class Reconcile:
 
             start = end
 
-        if start < len(outa_body):  # delete tail in output, doesn't happen if coming from AST
+        if start < len(getattr(outa, field)):  # delete tail in output, doesn't happen if coming from AST
             outf.put_slice(None, start, 'end', field, trivia=self.trivia_fst_put, **self.options)
 
     def recurse_children(self, node: AST, outa: AST) -> None:
@@ -444,6 +445,19 @@ class Reconcile:
                 # slice fallback, one by one but only if sizes are same
 
                 if len(child) != len(getattr(outa, field)):  # this will never happen if coming from pure AST
+                    if (field in ('decorator_list', 'type_params')
+                        or (
+                            field == 'items'
+                            and node.__class__ in (With, AsyncWith)
+                        )
+                        or (
+                            field in ('bases', 'keywords')
+                            and node.__class__ is ClassDef
+                    )):  # header fields of block statements which have slice support, done as slice so that a change of length does not fail up to a put of the whole statement as AST which loses the formatting of the whole body
+                        self.recurse_slice(node, outf, field, child)
+
+                        continue
+
                     raise NotImplementedError(f'different length slice fields {field!r}')
 
                 for i, c in enumerate(child):
